@@ -101,12 +101,12 @@ def flowOf (v : List Int) (loops : List Int) : Fx.Flow :=
   let g := fun (i : Nat) => v.getD i 0
   { speed := g 0, bpm := g 1, gvol := g 2, st26 := g 3, pbreak := g 4, jump := g 5, delay := g 6, jumpline := g 7,
     loopDest := g 8, rowdelay := g 9, rowdelaySet := g 10, jumpInPat := g 11, loopParam := g 12, loopStart := g 13,
-    loopCount := g 14, loopActive := g 15, loops := loopsOf loops }
+    loopCount := g 14, loopActive := g 15, loops := loopsOf loops, farMode := g 16, farCoarse := g 17, farFine := g 18 }
 
 def flowStr (f : Fx.Flow) (bpmWild : Bool) : String :=
   let a := [f.speed].map toString ++ [if bpmWild then "*" else toString f.bpm] ++
     [f.gvol, f.st26, f.pbreak, f.jump, f.delay, f.jumpline, f.loopDest, f.rowdelay, f.rowdelaySet, f.jumpInPat,
-     f.loopParam, f.loopStart, f.loopCount, f.loopActive].map toString
+     f.loopParam, f.loopStart, f.loopCount, f.loopActive, f.farMode, f.farCoarse, f.farFine].map toString
   let l := f.loops.flatMap fun x => [toString x.start, toString x.count]
   " ".intercalate a ++ " |" ++ (if l.isEmpty then "" else " " ++ " ".intercalate l)
 
